@@ -100,6 +100,7 @@ func (qs *QueryStore) RebuildIndexes() error {
 		}
 	}
 
+	simAt("rebuild.afterDrop", "")
 	// Create new index entries in a single transaction
 	return qs.st.DB.Update(func(txn *badger.Txn) error {
 		t := reflect.TypeOf(qs.st.Type())
@@ -164,6 +165,7 @@ func (qs *QueryStore) Flush() {
 
 func (qs *QueryStore) handleChange(id string, before, after interface{}) {
 	qs.tq.Do(func() {
+		simAt("updateIndex.start", id)
 		err := qs.updateIndex(id, before, after)
 		if err != nil {
 			if qs.log != nil {
@@ -171,6 +173,7 @@ func (qs *QueryStore) handleChange(id string, before, after interface{}) {
 			}
 		}
 	})
+	simAt("handleChange.afterDo", id)
 }
 
 func (qs *QueryStore) updateIndex(id string, before, after interface{}) error {
@@ -218,6 +221,7 @@ func (qs *QueryStore) updateIndex(id string, before, after interface{}) error {
 	if errmsg != "" {
 		return errors.New("failed to update resource [" + id + "] index:" + errmsg)
 	}
+	simAt("updateIndex.afterCommit", id)
 	if updated {
 		qc := store.QueryChange(queryChange{
 			qs:     qs,
